@@ -28,6 +28,14 @@ declare -A ALSO=(
   [C08-query-exec-shared-payload-buffer]="C13"
   [C06-deferred-closure-uses-outer-ctx]="C13"
   [C07-oftype-writes-into-shared-schema]="C16"
+  [C05-slot-released-after-marshal-not-deferred]="C04"
+  [C05-stop-deletes-active-id-immediately]="C11"
+  [C07-defaultrecover-shared-sentinel-error]="C04"
+  [C01-hasfielderror-newest-only]="C06"
+  [C01-serial-only-when-root-named-mutation]="C06"
+  [C13-multipart-batch-hasnext-any]="C12"
+  [C02-no-variables-key-skips-coercion]="C03"
+  [C17-prune-skip-object-resolution-shadowed-arg]="C19"
 )
 echo "# Seeded changes vs. the checks ($tier tier, $(date -u +%FT%TZ), /repo $(git -C /repo log --format=%h -1))" > $out
 echo >> $out
